@@ -351,7 +351,9 @@ def text_candidates(text, mode):
             st = fstack.pop()
             s0, s1 = src.off(st.start), src.off(st.end)
             mid = text[s1:s]
-            for p, q in (("f", "'"), ("f", t.string), ("f", t.string[0]), (st.string[: -len(t.string)], "'")):
+            pre = st.string[: -len(t.string)]
+            raw = "fr" if "r" in pre.lower() else "f"
+            for p, q in (("f", "'"), ("f", t.string), ("f", t.string[0]), (pre, "'"), (raw, "'"), (raw, t.string[0]), (raw, t.string)):
                 if (p + q, q) != (st.string, t.string):
                     yield text[:s0] + p + q + mid + q + text[e:]
             for w in (2, 1):
